@@ -450,10 +450,8 @@ func (t *transitiveClosure) addElement(
 
 	switch typedDescriptor := descriptor.(type) {
 	case *descriptorpb.FileDescriptorProto:
-		typeNames, ok := imageIndex.FileTypes[typedDescriptor.GetName()]
-		if !ok {
-			return fmt.Errorf("missing %q", typedDescriptor.GetName())
-		}
+		// A file that declares no types has no entry in FileTypes.
+		typeNames := imageIndex.FileTypes[typedDescriptor.GetName()]
 		// A file includes all elements. The types are resolved in the image index
 		// to ensure all nested types are included.
 		for _, typeName := range typeNames {
